@@ -108,9 +108,13 @@ Definition sample_code (c : tcase) (g : cfg) (succ : list (Z * option expr)) (sm
     end in
   if negb (spec_cpu =? 0) then spec_cpu else
   (* 2. is the outcome architecturally defined, and do we have something to compare with? *)
+  (* XUnspec for a form that HAS a specification = the architecture leaves the outcome undefined for this
+     (form, state) (e.g. shld/shrd r16 with a masked count above 16): the oracle is silent *)
+  let nospec := match tc_ins c with INoSpec _ => true | _ => false end in
   let defined := match sp, sm_cpu sm with
                  | _, CpuSig _ => false
                  | XFault, _ => false
+                 | XUnspec, CpuOk _ _ _ _ _ => nospec
                  | _, CpuOk _ _ _ _ _ => true
                  | XNext _ _, CpuNone => true
                  | _, CpuNone => false
